@@ -82,6 +82,12 @@ func sfoField(f afero.File, field string) (string, error) {
 		return "", fmt.Errorf("field was not found")
 	}
 
+	// value is collected in memory, so don't trust declared length: values are short strings (or 4-byte numbers)
+	const maxDataLen = 1 << 16
+	if idxEntry.DataLen == 0 || idxEntry.DataLen > maxDataLen {
+		return "", fmt.Errorf("unexpected %s length (%d)", field, idxEntry.DataLen)
+	}
+
 	off := int64(hdr.DataTableStart) + int64(idxEntry.DataOffset)
 
 	_, err := f.Seek(off, io.SeekStart)
